@@ -610,4 +610,70 @@ Section ComponentsOk.
     intros g cs Hb H. destruct (wstep_ok_sound g Hb) as [H1 H2].
     apply (weakly_connected_components_partition g cs H1 H2 H).
   Qed.
+
+  (* ------------------------------------------------------------------ *)
+  (* breadth_first_search terminates (the model's fuel |V|+2 is never exhausted) and does
+     not panic, on every graph state whose adjacency query is total and closed over the
+     node list, from every node                                                            *)
+  Definition adj_total (g : gstate) : Prop :=
+    forall u, In u (g_nodes g) ->
+    exists ns, get_successors_or_neighbors teqb g u = Ok ns /\ incl (map nname ns) (g_nodes g).
+
+  Lemma step_total_sound : forall (g : gstate), step_total_b teqb g = true -> adj_total g.
+  Proof.
+    intros g H u Hu. unfold step_total_b in H. rewrite forallb_forall in H. specialize (H u Hu).
+    destruct (get_successors_or_neighbors teqb g u) as [ns | | | ]; try discriminate.
+    exists ns. split; [reflexivity | ]. rewrite forallb_forall in H. intros v Hv.
+    apply (memb_In teqb teqb_spec). apply H. exact Hv.
+  Qed.
+
+  Lemma bfs_level_total : forall (g : gstate) lvl seen ret next,
+    adj_total g -> incl lvl (g_nodes g) -> NoDup seen -> incl seen (g_nodes g) -> incl next (g_nodes g) ->
+    exists s' r' n', bfs_level teqb g lvl seen ret next = Ok (s', r', n') /\
+      NoDup s' /\ incl s' (g_nodes g) /\ incl n' (g_nodes g) /\
+      length seen <= length s' /\ (length s' = length seen -> n' = next).
+  Proof.
+    intros g. induction lvl as [ | v t IH ]; intros seen ret next Htot Hl Hnd Hs Hn.
+    - exists seen, ret, next. cbn. repeat split; auto.
+    - assert (Hv : In v (g_nodes g)) by (apply Hl; cbn; tauto).
+      assert (Ht : incl t (g_nodes g)) by (intros z Hz; apply Hl; cbn; tauto).
+      cbn [bfs_level]. destruct (mem_name teqb v seen) eqn:Hm.
+      + apply (IH seen ret next Htot Ht Hnd Hs Hn).
+      + apply mem_name_false in Hm. destruct (Htot v Hv) as [ns [Hg Hin]]. rewrite Hg. cbn [bind].
+        destruct (IH (seen ++ [v]) (ret ++ [v]) (union_names teqb next (map nname ns)) Htot Ht)
+          as [s' [r' [n' [H1 [H2 [H3 [H4 [H5 H6]]]]]]]].
+        * apply NoDup_app_snoc; assumption.
+        * intros z Hz. apply in_app_iff in Hz. destruct Hz as [Hz | [Hz | []]]; [apply Hs; exact Hz | subst; exact Hv].
+        * intros z Hz. apply union_names_In in Hz. destruct Hz as [Hz | Hz]; [apply Hn | apply Hin]; exact Hz.
+        * exists s', r', n'. rewrite app_length in H5, H6. cbn [length] in H5, H6.
+          repeat split; auto; try lia.
+  Qed.
+
+  Lemma bfs_loop_total : forall (g : gstate) fuel seen ret next,
+    adj_total g -> NoDup seen -> incl seen (g_nodes g) -> incl next (g_nodes g) ->
+    length (g_nodes g) - length seen + 2 <= fuel ->
+    exists l, bfs_loop teqb fuel g seen ret next = Ok l.
+  Proof.
+    intros g. induction fuel as [ | f IH ]; intros seen ret next Htot Hnd Hs Hn Hf; [lia | ].
+    destruct next as [ | n0 nt ]; [exists ret; reflexivity | ].
+    cbn [bfs_loop].
+    destruct (bfs_level_total g (n0 :: nt) seen ret [] Htot Hn Hnd Hs (incl_nil_l _))
+      as [s' [r' [n' [H1 [H2 [H3 [H4 [H5 H6]]]]]]]].
+    rewrite H1. cbn [bind].
+    destruct (Nat.eq_dec (length s') (length seen)) as [Heq | Hne].
+    - rewrite (H6 Heq). exists r'. destruct f; reflexivity.
+    - apply IH; try assumption.
+      pose proof (NoDup_incl_length H2 H3). lia.
+  Qed.
+
+  Theorem bfs_total : forall (g : gstate) x,
+    adj_total g -> In x (g_nodes g) -> exists l, breadth_first_search teqb g x = Ok l.
+  Proof.
+    intros g x Htot Hx. unfold breadth_first_search. apply bfs_loop_total.
+    - exact Htot.
+    - constructor.
+    - intros z [].
+    - intros z [Hz | []]. subst. exact Hx.
+    - unfold g_nodes, get_all_node_names. rewrite map_length. cbn [length]. lia.
+  Qed.
 End ComponentsOk.
